@@ -26,6 +26,14 @@ GLOB = dict(hostname=b"verif-host", url=b"http://x", uuid=bytes(range(16)), hwid
             fname=G.ucs2("Friendly"), conv=0, fail=0)
 
 
+# which Hello properties a failing getter may legitimately affect (bit numbers as in harness/vport.h)
+GETTER_TLVS = {0: set(), 1: {W.TLV_HOSTID}, 2: {W.TLV_IFTYPE}, 3: {W.TLV_IPV4}, 4: {W.TLV_IPV6}, 5: {W.TLV_LINKSPEED}, 6: set(),
+               7: {W.TLV_BSSID}, 8: {W.TLV_SSID}, 9: {W.TLV_MAXRATE}, 10: {W.TLV_RSSI}, 11: {W.TLV_IFTYPE}, 12: {W.TLV_HOSTNAME},
+               13: {W.TLV_ICON}, 14: {W.TLV_FNAME}, 15: {W.TLV_HWID}}
+CORE_TLVS = {W.TLV_HOSTID, W.TLV_CHAR, W.TLV_IFTYPE, W.TLV_IPV4, W.TLV_IPV6, W.TLV_PERF, W.TLV_LINKSPEED, W.TLV_HOSTNAME, W.TLV_QOS,
+             W.TLV_ICON, W.TLV_FNAME}
+
+
 def probes(n, base=1):
     return [W.probe(OWN, bytes([2, 0x50]) + (base + j).to_bytes(4, "big"), OWN, S1) for j in range(n)]
 
@@ -184,6 +192,33 @@ def make_monitor(refs):
                 a, b = [r[17] for r in sent if r and len(r) >= 18], [p[0] for p in ref["proj"] if p]
                 if not is_subseq(a, b):
                     bad("more-frames-under-getter-failure", "opcodes sent %s, fault-free %s" % (a, b))
+                # a Hello under getter failures: every property whose getter did not fail is exactly the fault-free one, and
+                # nothing appears that the fault-free Hello does not carry
+                h_f = [r for r in sent if r and len(r) > 46 and r[17] == W.OP_HELLO]
+                h_r = [r for r in ref.get("raws", []) if r and len(r) > 46 and r[17] == W.OP_HELLO]
+                if len(h_f) == 1 and len(h_r) == 1:
+                    mask = meta["getter_fail"]
+                    affected = set()
+                    for bit, types in GETTER_TLVS.items():
+                        if mask & (1 << bit):
+                            affected |= types
+                    tf, _e1, _x1 = W.parse_tlvs(h_f[0][46:])
+                    tr, _e2, _x2 = W.parse_tlvs(h_r[0][46:])
+                    df, dr = dict(tf), dict(tr)
+                    wifi_off = bool(mask & (1 << 6))
+                    rep.count("hellos_compared_under_getter_failure")
+                    for ty, v in tr:
+                        if ty in affected or (wifi_off and ty not in CORE_TLVS):
+                            continue
+                        if ty not in df:
+                            bad("unaffected-property-missing-under-getter-failure:%#x" % ty, "property %#x is carried by the fault-free Hello, "
+                                "its getter did not fail, but it is missing" % ty)
+                        elif df[ty] != v:
+                            bad("unaffected-property-changed-under-getter-failure:%#x" % ty, "property %#x = %s, fault-free %s"
+                                % (ty, df[ty].hex(), v.hex()))
+                    for ty, v in tf:
+                        if ty not in dr:
+                            bad("property-invented-under-getter-failure:%#x" % ty, "property %#x = %s is not in the fault-free Hello" % (ty, v.hex()))
             rep.nontrivial((base, meta.get("fault")))
         # continuation equals a fresh instance's
         n = len(CONT) + 1
@@ -202,6 +237,7 @@ def ref_monitor_factory(store):
         req = section(scn, "request", meta["nreq"])
         st = dict(allocs=sum(i.out[4] for i in req if i.out), sends=sum(i.out[0] for i in req if i.out),
                   proj=[proj(e[3]) for i in req for e in i.sends()],
+                  raws=[e[3] for i in req for e in i.sends()],
                   ledger=scn.ledgers[-1][1] if scn.ledgers else None, clean=scn.clean)
         rep.extra.setdefault("_refs", {})[meta["base"]] = st
         for key, txt in sf:
@@ -340,6 +376,7 @@ def run(ctx):
     rep.need("runs:alloc", c.get("runs:alloc", 0), 50)
     rep.need("runs:send", c.get("runs:send", 0), 30)
     rep.need("runs:getter", c.get("runs:getter", 0), 500)
+    rep.need("hellos_compared_under_getter_failure", c.get("hellos_compared_under_getter_failure", 0), 300)
     rep.need("runs:getter-positive-return-code", c.get("runs:getter-positive-return-code", 0), 100)
     rep.need("runs:ctor", c.get("runs:ctor", 0), 24)
     rep.need("ledger_comparisons", c.get("ledger_comparisons", 0), 500)
